@@ -18,10 +18,11 @@ Proof.
   intros E. apply H. apply did_key_inj. exact E.
 Qed.
 
-(** an entry of the registry is either an active document about its own key or a tombstone *)
+(** an entry of the registry is either an active document about its own key or a tombstone (a document with an empty
+    id — what DIDDocument.Empty() tests — and a sequence other than the initial one) *)
 Definition entry_ok (did : bytes) (e : did_entry) : Prop :=
   exists d, en_doc e = Some d /\
-    ((doc_id d = did /\ did <> []) \/ (d = empty_doc /\ en_seq e <> 0)).
+    ((doc_id d = did /\ did <> []) \/ (doc_empty d = true /\ en_seq e <> 0)).
 
 Definition Inv_did (st : did_state) : Prop :=
   sorted st /\ forall k e, get k st = Some e -> exists did, k = did_key did /\ entry_ok did e.
@@ -33,7 +34,7 @@ Lemma entry_ok_not_empty did e : entry_ok did e -> entry_empty e = false.
 Proof.
   intros [d [Hd [[Hid Hne]|[He Hs]]]]; unfold entry_empty; rewrite Hd.
   - unfold doc_empty. rewrite Hid. destruct did; [contradiction | reflexivity].
-  - subst d. simpl. apply N.eqb_neq in Hs. rewrite Hs. reflexivity.
+  - rewrite He. simpl. apply N.eqb_neq in Hs. rewrite Hs. reflexivity.
 Qed.
 
 Lemma Inv_did_get_entry st did :
@@ -56,8 +57,9 @@ Section Handlers.
   Variable verify : bytes -> bytes -> bytes -> bool.
 
   (** a proof of control: a key the document [doc] lists under authentication, of an ES256K type,
-      verifies [sig] over [signbytes (marshal_doc data) seq] *)
+      verifies [sig] over [signbytes (marshal_doc data) seq], and [seq] is not the last uint64 value *)
   Definition proof_ok (doc data : did_doc) (seq : N) (vmid sig : bytes) : Prop :=
+    seq <> max_seq /\      (* the sequence has a successor (F15) *)
     exists vm pk, vm_from doc (doc_auth doc) vmid = Some vm /\ es256k (vm_type vm) = true /\
                   b58key (vm_pubkey58 vm) = Some pk /\
                   verify pk (signbytes (marshal_doc data) seq) sig = true.
@@ -71,7 +73,20 @@ Section Handlers.
     destruct (es256k (vm_type vm)) eqn:Et; simpl; [|discriminate].
     destruct (b58key (vm_pubkey58 vm)) as [pk|] eqn:Ek; [|discriminate].
     destruct (verify pk (signbytes (marshal_doc data) seq) sig) eqn:Ev; [|discriminate].
-    intros [= <-]. split; [|reflexivity]. exists vm, pk. auto.
+    destruct (seq =? max_seq)%N eqn:Em; simpl; [discriminate|].
+    intros [= <-]. split; [|reflexivity]. split; [apply N.eqb_neq; exact Em|]. exists vm, pk. auto.
+  Qed.
+
+  (** the last uint64 sequence has no successor: no proof over it is accepted (F15) *)
+  Lemma verify_ownership_below_max data seq doc vmid sig nseq :
+    verify_ownership b58key verify marshal_doc data seq doc vmid sig = Ok nseq -> seq <> max_seq.
+  Proof.
+    unfold verify_ownership.
+    destruct (vm_from doc (doc_auth doc) vmid) as [vm|]; [|discriminate].
+    destruct (es256k (vm_type vm)); simpl; [|discriminate].
+    destruct (b58key (vm_pubkey58 vm)) as [pk|]; [|discriminate].
+    destruct (verify pk (signbytes (marshal_doc data) seq) sig); [|discriminate].
+    destruct (seq =? max_seq)%N eqn:E; simpl; [discriminate|]. intros _. apply N.eqb_neq. exact E.
   Qed.
 
   (** ** what an accepted message does *)
